@@ -204,7 +204,7 @@ func runC19(p *engine.Prog, r *engine.Report) {
 						isRangeVar = true
 					}
 				}
-				if !isRangeVar {
+				if !isRangeVar && !bookkeepingCell(fn, al) {
 					probs = append(probs, "variable "+al.Comment+" declared outside the loop is written inside it")
 				}
 			}
@@ -279,6 +279,9 @@ func runC19(p *engine.Prog, r *engine.Report) {
 							nW++
 							if f == fn && !loop.blocks[in.Block().Index] && engine.FieldOf(a) == fMerged {
 								continue // the publication after the loop
+							}
+							if bookkeepingField(reach, fn, engine.FieldOf(a)) {
+								continue // a statistic: counted and published, never consulted
 							}
 							probs = append(probs, "Coordinator."+engine.FieldOf(a).Name()+" is written in "+engine.FuncName(f)+" ("+p.Rel(in.Pos())+")")
 						}
@@ -559,4 +562,262 @@ func entryOfMap(v, m ssa.Value, seen map[ssa.Value]bool) ssa.Value {
 		}
 	}
 	return nil
+}
+
+// Bookkeeping: a counter that the cycle only increments, resets and hands to a metric or a log line carries nothing
+// from one replica to the next that planning could see.
+
+// sinkOnly: every use of the value v (a number read from the counter) ends in the counter itself, in a metrics or
+// logging call, or in a conversion leading there.
+func sinkOnly(v ssa.Value, isSelf func(addr ssa.Value) bool, depth int) bool {
+	if depth > 5 || v.Referrers() == nil {
+		return false
+	}
+	for _, rr := range *v.Referrers() {
+		switch x := rr.(type) {
+		case *ssa.DebugRef:
+		case *ssa.BinOp:
+			if x.Op != token.ADD && x.Op != token.SUB {
+				return false
+			}
+			if !sinkOnly(x, isSelf, depth+1) {
+				return false
+			}
+		case *ssa.Convert:
+			if !sinkOnly(x, isSelf, depth+1) {
+				return false
+			}
+		case *ssa.MakeInterface:
+			if !sinkOnly(x, isSelf, depth+1) {
+				return false
+			}
+		case *ssa.Store:
+			if x.Val != v {
+				return false
+			}
+			if isSelf(x.Addr) {
+				continue
+			}
+			// an element of a variadic argument list (log call)
+			if ia, ok := x.Addr.(*ssa.IndexAddr); ok {
+				if al, ok := ia.X.(*ssa.Alloc); ok && strings.Contains(al.Comment, "varargs") {
+					okAll := true
+					for _, r2 := range *al.Referrers() {
+						if sl, ok := r2.(*ssa.Slice); ok && !sinkOnly(sl, isSelf, depth+1) {
+							okAll = false
+						}
+					}
+					if okAll {
+						continue
+					}
+				}
+			}
+			return false
+		case ssa.CallInstruction:
+			if !isMetricOrLogCall(x.Common()) {
+				return false
+			}
+		default:
+			return false
+		}
+	}
+	return true
+}
+
+func isMetricOrLogCall(c *ssa.CallCommon) bool {
+	var pkg string
+	if c.IsInvoke() {
+		if c.Method.Pkg() != nil {
+			pkg = c.Method.Pkg().Path()
+		}
+	} else if callee := c.StaticCallee(); callee != nil && callee.Pkg != nil {
+		pkg = callee.Pkg.Pkg.Path()
+	}
+	return strings.HasPrefix(pkg, "github.com/prometheus/client_golang/") || strings.HasPrefix(pkg, "github.com/sirupsen/logrus")
+}
+
+// bookkeepingCell: the local variable (possibly captured by closures of fn) is only counted and published.
+func bookkeepingCell(fn *ssa.Function, al *ssa.Alloc) bool {
+	if b, ok := al.Type().Underlying().(*types.Pointer).Elem().Underlying().(*types.Basic); !ok || b.Info()&types.IsNumeric == 0 {
+		return false
+	}
+	cells := []ssa.Value{al}
+	// the same cell seen from closures
+	var fns []*ssa.Function
+	var collect func(f *ssa.Function)
+	collect = func(f *ssa.Function) {
+		fns = append(fns, f)
+		for _, a := range f.AnonFuncs {
+			collect(a)
+		}
+	}
+	collect(fn)
+	for _, f := range fns {
+		for _, in := range allInstrs(f) {
+			if mc, ok := in.(*ssa.MakeClosure); ok {
+				cf := mc.Fn.(*ssa.Function)
+				for i, b := range mc.Bindings {
+					for _, c := range cells {
+						if b == c && i < len(cf.FreeVars) {
+							cells = append(cells, cf.FreeVars[i])
+						}
+					}
+				}
+			}
+		}
+	}
+	isSelf := func(addr ssa.Value) bool {
+		for _, c := range cells {
+			if addr == c {
+				return true
+			}
+		}
+		return false
+	}
+	for _, c := range cells {
+		if c.Referrers() == nil {
+			continue
+		}
+		for _, rr := range *c.Referrers() {
+			switch x := rr.(type) {
+			case *ssa.Store:
+				if x.Addr != c {
+					return false // the address itself is stored somewhere
+				}
+				if _, isConst := x.Val.(*ssa.Const); !isConst {
+					if bo, ok := x.Val.(*ssa.BinOp); !ok || (bo.Op != token.ADD && bo.Op != token.SUB) {
+						return false
+					}
+				}
+			case *ssa.UnOp:
+				if !sinkOnly(x, isSelf, 0) {
+					return false
+				}
+			case *ssa.MakeClosure, *ssa.DebugRef:
+			default:
+				return false
+			}
+		}
+	}
+	return true
+}
+
+// bookkeepingField: every access to the Coordinator field (or to the numeric fields of the struct it holds) in the
+// functions reachable from the cycle, and in the cycle function itself, only counts and publishes.
+func bookkeepingField(reach map[*ssa.Function]bool, cycle *ssa.Function, f *types.Var) bool {
+	fns := map[*ssa.Function]bool{cycle: true}
+	for g := range reach {
+		fns[g] = true
+	}
+	numeric := func(t types.Type) bool {
+		b, ok := t.Underlying().(*types.Basic)
+		return ok && b.Info()&types.IsNumeric != 0
+	}
+	n := 0
+	for g := range fns {
+		for _, in := range allInstrs(g) {
+			fa, ok := in.(*ssa.FieldAddr)
+			if !ok || engine.FieldOf(fa) != f {
+				continue
+			}
+			n++
+			// addresses derived from the field: the field itself or numeric members of a struct held in it
+			addrs := []ssa.Value{fa}
+			if _, isStruct := f.Type().Underlying().(*types.Struct); isStruct {
+				addrs = nil
+				for _, rr := range *fa.Referrers() {
+					switch x := rr.(type) {
+					case *ssa.FieldAddr:
+						if !numeric(engine.FieldOf(x).Type()) {
+							return false
+						}
+						addrs = append(addrs, x)
+					case *ssa.Store:
+						// reset of the whole statistic to its zero value
+						if x.Addr != ssa.Value(fa) {
+							return false
+						}
+						if u, ok := x.Val.(*ssa.UnOp); ok {
+							if al, ok := u.X.(*ssa.Alloc); ok && len(*al.Referrers()) == 1 {
+								continue
+							}
+						}
+						if c, ok := x.Val.(*ssa.Const); ok && c.Value == nil {
+							continue
+						}
+						return false
+					case *ssa.UnOp:
+						// the statistic copied as a whole into a local (value receiver of a publishing helper)
+						for _, r2 := range *x.Referrers() {
+							st, ok := r2.(*ssa.Store)
+							if !ok {
+								if _, dbg := r2.(*ssa.DebugRef); dbg {
+									continue
+								}
+								return false
+							}
+							loc, ok := st.Addr.(*ssa.Alloc)
+							if !ok {
+								return false
+							}
+							for _, r3 := range *loc.Referrers() {
+								switch y := r3.(type) {
+								case *ssa.Store, *ssa.DebugRef:
+								case *ssa.FieldAddr:
+									for _, r4 := range *y.Referrers() {
+										ld, ok := r4.(*ssa.UnOp)
+										if !ok || !sinkOnly(ld, func(ssa.Value) bool { return false }, 0) {
+											return false
+										}
+									}
+								case *ssa.UnOp:
+									if len(*y.Referrers()) > 0 {
+										return false
+									}
+								default:
+									return false
+								}
+							}
+						}
+					case *ssa.DebugRef:
+					default:
+						return false
+					}
+				}
+			} else if !numeric(f.Type()) {
+				return false
+			}
+			for _, a := range addrs {
+				isSelf := func(addr ssa.Value) bool {
+					if fa2, ok := addr.(*ssa.FieldAddr); ok {
+						if fa0, ok := a.(*ssa.FieldAddr); ok {
+							return engine.FieldOf(fa2) == engine.FieldOf(fa0)
+						}
+					}
+					return addr == a
+				}
+				for _, rr := range *a.Referrers() {
+					switch x := rr.(type) {
+					case *ssa.Store:
+						if x.Addr != a {
+							return false
+						}
+						if _, isConst := x.Val.(*ssa.Const); !isConst {
+							if bo, ok := x.Val.(*ssa.BinOp); !ok || (bo.Op != token.ADD && bo.Op != token.SUB) {
+								return false
+							}
+						}
+					case *ssa.UnOp:
+						if !sinkOnly(x, isSelf, 0) {
+							return false
+						}
+					case *ssa.DebugRef:
+					default:
+						return false
+					}
+				}
+			}
+		}
+	}
+	return n > 0
 }
